@@ -29,6 +29,31 @@ func isBigIntMutator(name string) bool {
 	return false
 }
 
+// bigMutatorBehind: f is a mutating big.Int method, or the thunk of a method expression of one
+// (its first parameter is the receiver).
+func bigMutatorBehind(f *ssa.Function) *ssa.Function {
+	isMut := func(g *ssa.Function) bool {
+		if g == nil || g.Signature.Recv() == nil || !isBigIntMutator(g.Name()) {
+			return false
+		}
+		pp, tn := namedOf(g.Signature.Recv().Type())
+		return pp == "math/big" && tn == "Int"
+	}
+	if isMut(f) {
+		return f
+	}
+	if f.Synthetic == "" || len(f.Params) == 0 {
+		return nil
+	}
+	var found *ssa.Function
+	eachInstr(f, func(in ssa.Instruction) {
+		if call, ok := in.(*ssa.Call); ok && isMut(call.Call.StaticCallee()) && len(call.Call.Args) > 0 && call.Call.Args[0] == ssa.Value(f.Params[0]) {
+			found = call.Call.StaticCallee()
+		}
+	})
+	return found
+}
+
 func ruleI11(c *Ctx) {
 	n := 0
 	fc := computeReturnsFresh(c.P)
@@ -43,6 +68,44 @@ func ruleI11(c *Ctx) {
 				return
 			}
 			cal := call.Call.StaticCallee()
+			if cal == nil && !call.Call.IsInvoke() && len(call.Call.Args) > 0 {
+				// a mutator called through a function value (a method expression handed to a helper):
+				// the first argument is the receiver
+				if node := c.P.CG().Nodes[fn]; node != nil {
+					for _, e := range node.Out {
+						if e.Site != ssa.CallInstruction(call) {
+							continue
+						}
+						if m := bigMutatorBehind(e.Callee.Func); m != nil {
+							cal = m
+						}
+					}
+				}
+				if cal == nil {
+					return
+				}
+				n++
+				kbase := fmt.Sprintf("%s: big.Int method value receiver", fnName(fn))
+				ord[kbase]++
+				key := kbase
+				if ord[kbase] > 1 {
+					key = fmt.Sprintf("%s #%d", kbase, ord[kbase])
+				}
+				recv := call.Call.Args[0]
+				tr := traceAddr(recv)
+				fresh := len(tr.bases) > 0
+				for _, b := range tr.bases {
+					if b.throughPtr || !isFreshValue(fc, b.v) {
+						fresh = false
+					}
+				}
+				if fresh {
+					c.ok(key, c.P.Pos(call.Pos()), "receiver allocated in this function")
+				} else {
+					c.viol(key, c.P.Pos(call.Pos()), fmt.Sprintf("a mutating big.Int method (such as %s) is called through a function value on a receiver that this function did not allocate", cal.Name()))
+				}
+				return
+			}
 			if cal == nil || cal.Signature.Recv() == nil || !isBigIntMutator(cal.Name()) {
 				return
 			}
@@ -137,8 +200,8 @@ func ruleI12(c *Ctx) {
 					return true
 				}
 				// a predicate helper over the big arms: if anyBig(xBig, yBig) { ...big path... }
-				for _, pc := range pathConds(b) {
-					cond, neg := stripNot(pc.If.Cond)
+				for _, pf := range pathFacts(b) {
+					cond, neg := pf.Cond, false
 					pcall, ok := cond.(*ssa.Call)
 					if !ok {
 						continue
@@ -156,7 +219,7 @@ func ruleI12(c *Ctx) {
 					if idx < 0 {
 						continue
 					}
-					taken := pc.Branch != neg
+					taken := pf.Truth != neg
 					// evaluate the predicate with our arm non-nil and the others nil or non-nil: if it always
 					// answers `taken`'s opposite, then on this edge our arm is nil
 					always := true
